@@ -13,7 +13,7 @@ func init() {
 	Registry["C16"] = func(tier string) int {
 		return engineA("C16", tier, []scen.Spec{scen.DataSpec(tier == "thorough")},
 			func() []explore.Monitor { return []explore.Monitor{&mon.C16{}} },
-			budget(tier, 80*time.Second, 12*time.Minute),
+			budget(tier, 150*time.Second, 12*time.Minute),
 			"ID hash functions are injected through the verif-tagged constructor; weak digests are wrapped by the repository's own hasher.NewHasherWithOptions so the real CreateID derivation is under test",
 			"the content hash -> IRI naming function is the implementation's ToIRI (its correctness is C15's subject)")
 	}
